@@ -873,7 +873,9 @@ func sameValue(a, b interface{}) bool {
 	case reflect.Map, reflect.Func:
 		return va.Pointer() == vb.Pointer()
 	}
-	if !va.Type().Comparable() {
+	// (the value, not only its type: a struct or array that holds a list in an interface-typed
+	// field has a comparable type and still cannot be compared)
+	if !va.Comparable() {
 		return false
 	}
 	return a == b
